@@ -1063,6 +1063,13 @@ func (p *Parser) parseIf() ast.Node {
 			p.nextToken() // move to the "if"
 			nestedIfToken := p.curToken
 			nestedIf := p.parseIf()
+			if nestedIf == nil {
+				// e.g. "else if" followed by a line break: no condition
+				if p.err == nil {
+					p.setTokenError(p.curToken, "invalid syntax")
+				}
+				return nil
+			}
 			alternative := ast.NewBlock(nestedIfToken, []ast.Node{nestedIf})
 			return ast.NewIf(ifToken, cond, consequence, alternative)
 		}
